@@ -1,7 +1,8 @@
-(* C23 proofs, part 4: HNSW node-page readers on arbitrary page bytes.
-   get_slot panics exactly when the slot entry announced by the stored slot_count lies beyond the page
-   (hnsw_slot_oob); read_node_data additionally when an active entry's offset + size exceeds the page
-   (hnsw_node_oob).  Everywhere else: a value or an error, and the returned slice lies inside the page. *)
+(* C23 proofs, part 4: HNSW node-page readers on arbitrary page bytes (code since 4d4f2e6: checked `get`).
+   For every page accepted by HnswPageRef::from_bytes and every u16 slot index, slot_count, free_space, get_slot
+   and read_node_data return a value or an error, and the returned node data is a slice of the page.
+   (Before 4d4f2e6 they panicked on a slot_count above 4080 and on an entry with offset + size beyond the
+   page: findings F-C23-4 and F-C23-5.) *)
 From Coq Require Import ZArith List Bool Lia ZifyBool.
 From TV Require Import Lib.MachInt Lib.MachIntFacts Gen.PageConsts Gen.HnswLayout
   Model.StoredBytes Model.PageAccess Proof.StoredBytes Proof.PageAccessLeaf.
@@ -50,86 +51,63 @@ Proof.
 Qed.
 
 Lemma hnsw_get_slot_cases d i : blen d = PAGE_SIZE -> bytes_ok d = true -> 0 <= i < 65536 ->
-  (hnsw_slot_oob d i = true /\ hnsw_get_slot d i = Panic) \/
-  (hnsw_slot_oob d i = false /\ hnsw_get_slot d i = Ok None) \/
-  (hnsw_slot_oob d i = false /\
-   exists off st sz, hnsw_get_slot d i = Ok (Some (off, st, sz)) /\ 0 <= off < 8192 /\ 0 <= sz < 65536).
+  hnsw_get_slot d i = Ok None \/
+  exists off st sz, hnsw_get_slot d i = Ok (Some (off, st, sz)) /\ 0 <= off < 8192 /\ 0 <= sz < 65536.
 Proof.
-  intros Hl Hb Hi. unfold hnsw_slot_oob, hnsw_get_slot.
+  intros Hl Hb Hi. unfold hnsw_get_slot.
   destruct (hnsw_slot_count_ok d Hl Hb) as (sc & -> & Hsc). cbn [bind].
-  destruct (Z.geb_spec i sc) as [Ge|L].
-  { right. left. split; [|reflexivity]. destruct (Z.ltb_spec i sc); [lia | reflexivity]. }
-  destruct (Z.ltb_spec i sc) as [_|C]; [|lia]. cbn [andb].
+  destruct (Z.geb_spec i sc) as [Ge|L]; [left; reflexivity|].
   rewrite hnsw_off_safe by lia. rewrite hnsw_off. unfold HNSW_SLOT_SIZE, PAGE_SIZE in *.
-  destruct (Z.ltb_spec 16384 (64 + 4 * i + 4)) as [O|I].
-  - left. split; [reflexivity|]. rewrite sub_bad by (apply bslice_ok_false; lia). reflexivity.
-  - right. right. split; [reflexivity|].
-    rewrite sub_ok by (apply bslice_ok_true; lia). cbn [bind].
-    set (b := bslice d (64 + 4 * i) (64 + 4 * i + 4)).
-    assert (Hs : bytes_ok b = true) by (apply bytes_ok_bslice; exact Hb).
-    assert (Hsl : blen b = 4) by (unfold b; rewrite blen_bslice by (apply bslice_ok_true; lia); lia).
-    unfold slot_decode. eexists _, _, _. split; [reflexivity|].
-    pose proof (le_bound b 2 2 Hs) as H2. change (256 ^ 2) with 65536 in H2.
-    split; [lia | apply H2; lia].
-Qed.
-
-Lemma hnsw_get_slot_panic_iff_l : forall d i, hnsw_from_bytes d = Ok tt -> bytes_ok d = true -> 0 <= i < 65536 ->
-  (hnsw_get_slot d i = Panic <-> hnsw_slot_oob d i = true).
-Proof.
-  intros d i Hp Hb Hi. apply node_from_page_len in Hp.
-  destruct (hnsw_get_slot_cases d i Hp Hb Hi) as [(O & R)|[(O & R)|(O & off & st & sz & R & _)]];
-    rewrite O, R; split; congruence.
+  destruct (bslice_ok d (64 + 4 * i) (64 + 4 * i + 4)) eqn:E; [|left; reflexivity].
+  right. apply bslice_ok_true in E.
+  set (b := bslice d (64 + 4 * i) (64 + 4 * i + 4)).
+  assert (Hs : bytes_ok b = true) by (apply bytes_ok_bslice; exact Hb).
+  assert (Hsl : blen b = 4) by (unfold b; rewrite blen_bslice by (apply bslice_ok_true; lia); lia).
+  unfold slot_decode. eexists _, _, _. split; [reflexivity|].
+  pose proof (le_bound b 2 2 Hs) as H2. change (256 ^ 2) with 65536 in H2.
+  split; [lia | apply H2; lia].
 Qed.
 
 Lemma hnsw_read_node_data_cases d i : blen d = PAGE_SIZE -> bytes_ok d = true -> 0 <= i < 65536 ->
-  (hnsw_slot_oob d i = true /\ hnsw_read_node_data d i = Panic) \/
-  (hnsw_slot_oob d i = false /\ hnsw_node_oob d i = true /\ hnsw_read_node_data d i = Panic) \/
-  (hnsw_slot_oob d i = false /\ hnsw_node_oob d i = false /\
-   (hnsw_read_node_data d i = Err \/
-    exists off sz, 0 <= off /\ 0 <= sz /\ off + sz <= PAGE_SIZE /\ hnsw_read_node_data d i = Ok (bslice d off (off + sz)))).
+  hnsw_read_node_data d i = Err \/
+  exists off sz, 0 <= off /\ 0 <= sz /\ off + sz <= PAGE_SIZE /\ hnsw_read_node_data d i = Ok (bslice d off (off + sz)).
 Proof.
-  intros Hl Hb Hi. unfold hnsw_read_node_data, hnsw_node_oob.
-  destruct (hnsw_get_slot_cases d i Hl Hb Hi) as [(O & R)|[(O & R)|(O & off & st & sz & R & Ho & Hs)]];
-    rewrite R; cbn [bind].
-  - left. auto.
-  - right. right. auto.
-  - right. destruct (st =? 1); cbn [andb]; [|right; auto].
-    destruct (Z.ltb_spec PAGE_SIZE (off + sz)) as [G|L].
-    + left. split; [exact O|]. split; [reflexivity|].
-      rewrite sub_bad by (apply bslice_ok_false; lia). reflexivity.
-    + right. split; [exact O|]. split; [reflexivity|]. right. exists off, sz.
-      rewrite sub_ok by (apply bslice_ok_true; lia). repeat split; lia.
-Qed.
-
-Lemma hnsw_read_node_data_panic_iff_l : forall d i, hnsw_from_bytes d = Ok tt -> bytes_ok d = true -> 0 <= i < 65536 ->
-  (hnsw_read_node_data d i = Panic <-> hnsw_slot_oob d i = true \/ hnsw_node_oob d i = true).
-Proof.
-  intros d i Hp Hb Hi. apply node_from_page_len in Hp.
-  destruct (hnsw_read_node_data_cases d i Hp Hb Hi)
-    as [(O & R)|[(O & V & R)|(O & V & [R|(off & sz & _ & _ & _ & R)])]]; rewrite R; try rewrite O; try rewrite V;
-    split; try congruence; auto; intros [C|C]; congruence.
+  intros Hl Hb Hi. unfold hnsw_read_node_data.
+  destruct (hnsw_get_slot_cases d i Hl Hb Hi) as [R|(off & st & sz & R & Ho & Hs)]; rewrite R; cbn [bind].
+  - left. reflexivity.
+  - destruct (st =? 1); [|left; reflexivity].
+    destruct (bslice_ok d off (off + sz)) eqn:E; [|left; reflexivity].
+    right. apply bslice_ok_true in E. exists off, sz. rewrite Hl in E. repeat split; lia.
 Qed.
 
 Lemma hnsw_readers_total_l : forall d i, hnsw_from_bytes d = Ok tt -> bytes_ok d = true -> 0 <= i < 65536 ->
-  hnsw_slot_oob d i = false ->
-  value_or_error (hnsw_get_slot d i) /\ (hnsw_node_oob d i = false -> value_or_error (hnsw_read_node_data d i)).
+  value_or_error (hnsw_slot_count d) /\ value_or_error (hnsw_free_space d) /\
+  value_or_error (hnsw_get_slot d i) /\ value_or_error (hnsw_read_node_data d i).
 Proof.
-  intros d i Hp Hb Hi O. apply node_from_page_len in Hp. split.
-  - destruct (hnsw_get_slot_cases d i Hp Hb Hi) as [(O' & _)|[(_ & R)|(_ & off & st & sz & R & _)]];
-      [congruence | |]; rewrite R; exact I.
-  - intros V. destruct (hnsw_read_node_data_cases d i Hp Hb Hi)
-      as [(O' & _)|[(_ & V' & _)|(_ & _ & [R|(off & sz & _ & _ & _ & R)])]]; try congruence; rewrite R; exact I.
+  intros d i Hp Hb Hi. destruct (hnsw_total_l d Hp) as (H1 & H2). apply node_from_page_len in Hp.
+  repeat split; [exact H1 | exact H2 | |].
+  - destruct (hnsw_get_slot_cases d i Hp Hb Hi) as [R|(off & st & sz & R & _)]; rewrite R; exact I.
+  - destruct (hnsw_read_node_data_cases d i Hp Hb Hi) as [R|(off & sz & _ & _ & _ & R)]; rewrite R; exact I.
 Qed.
 
-(* ------------------------------------------------------------------ the refutations *)
-(* type byte 0x10, slot_count 4081: slot 4080 would start at byte 16384;
-   one active slot entry with offset 8191 and size 8194: ends at byte 16385 *)
+Lemma hnsw_node_data_inside_l : forall d i v, blen d = PAGE_SIZE -> bytes_ok d = true -> 0 <= i < 65536 ->
+  hnsw_read_node_data d i = Ok v ->
+  exists off sz, 0 <= off /\ 0 <= sz /\ off + sz <= PAGE_SIZE /\ v = bslice d off (off + sz).
+Proof.
+  intros d i v Hl Hb Hi Hv.
+  destruct (hnsw_read_node_data_cases d i Hl Hb Hi) as [R|(off & sz & H1 & H2 & H3 & R)]; rewrite R in Hv;
+    [discriminate|]. inversion Hv. subst. exists off, sz. auto.
+Qed.
+
+(* ------------------------------------------------------------------ the former witnesses *)
+(* F-C23-4: type byte 0x10, slot_count 4081 - slot 4080 would start at byte 16384: now None / Err.
+   F-C23-5: one active slot entry with offset 8191 and size 8194 - ends at byte 16385: now Err. *)
 Definition hnsw_witness_slot : list Z := image 16384 0 [(0, [16]); (16, [241; 15])].
 Definition hnsw_witness_node : list Z := image 16384 0 [(0, [16]); (16, [1; 0]); (64, [255; 63; 2; 32])].
 
-Lemma hnsw_readers_refuted_l :
+Lemma hnsw_former_witnesses_l :
   hnsw_from_bytes hnsw_witness_slot = Ok tt /\ bytes_ok hnsw_witness_slot = true /\
-  hnsw_get_slot hnsw_witness_slot 4080 = Panic /\ hnsw_read_node_data hnsw_witness_slot 4080 = Panic /\
+  hnsw_get_slot hnsw_witness_slot 4080 = Ok None /\ hnsw_read_node_data hnsw_witness_slot 4080 = Err /\
   hnsw_from_bytes hnsw_witness_node = Ok tt /\ bytes_ok hnsw_witness_node = true /\
-  hnsw_get_slot hnsw_witness_node 0 = Ok (Some (8191, 1, 8194)) /\ hnsw_read_node_data hnsw_witness_node 0 = Panic.
+  hnsw_get_slot hnsw_witness_node 0 = Ok (Some (8191, 1, 8194)) /\ hnsw_read_node_data hnsw_witness_node 0 = Err.
 Proof. vm_compute. repeat split. Qed.
